@@ -330,7 +330,7 @@ impl Ctx {
                 cases: remaining,
                 failure_persistence: None,
                 rng_seed: RngSeed::Fixed(seed),
-                max_shrink_iters: 20_000,
+                max_shrink_iters: 1_500,
                 max_local_rejects: 1_000_000,
                 max_global_rejects: 1_000_000,
                 ..Config::default()
@@ -340,8 +340,23 @@ impl Ctx {
             let done = Cell::new(0u32);
             self.counting.set(true);
             let strat = proptest::collection::vec(any::<u8>(), 0..max_len);
+            let cur_path = format!(
+                "{}/replays/.cur-{}-{}.tmp",
+                std::env::var("VERIF_ROOT").unwrap_or_else(|_| "/verif".into()),
+                self.prop,
+                self.shard
+            );
             let result = runner.run(&strat, |bytes| {
                 self.beat();
+                if !self.strict {
+                    // crash attribution: the case being executed is always on disk
+                    let rec = format!("{{\"kind\":\"{}\",\"payload\":{{\"bytes\":\"{}\"}}}}", kind, hex(&bytes));
+                    if !self.skip.is_empty() && self.skip.contains(&fnv(rec.as_bytes())) {
+                        self.discard("skipped: hung or aborted in an earlier incarnation of this shard");
+                        return Ok(());
+                    }
+                    let _ = std::fs::write(&cur_path, rec);
+                }
                 let searching = first_sig.borrow().is_none();
                 if searching {
                     done.set(done.get() + 1);
@@ -376,6 +391,7 @@ impl Ctx {
                 }
             });
             self.counting.set(true);
+            let _ = std::fs::remove_file(&cur_path);
             match result {
                 Ok(()) => break,
                 Err(TestError::Fail(_, bytes)) => {
